@@ -10,7 +10,13 @@ import time
 
 from zarr.storage import WrapperStore
 
-CURRENT = threading.local()   # .task = (op name, tuple(coords)) set by harness/adv_executor.py
+class _Current:
+    """Which task is running. A plain global: the adversarial executor runs tasks one at a time, while zarr
+    performs store IO on its own event-loop thread (so a thread-local would not be visible there)."""
+    task = None
+
+
+CURRENT = _Current()   # .task = (op name, tuple(coords)) set by harness/adv_executor.py
 
 
 class CrashNow(BaseException):
